@@ -83,8 +83,8 @@ func (p *StreamPool) VerifQueued() (maxPages, queuedPages int, oldestHead time.T
 			// counted by walking the queue, not taken from the h.pages counter
 			// the limit logic itself relies on
 			n := 0
-			for pg := h.first; pg != nil; pg = pg.next {
-				n++
+			for pg := h.first; pg != nil && !h.closed; pg = pg.next {
+				n++ // (a closed half has given its pages back but still points at them)
 			}
 			queuedPages += n
 			if n > maxPages {
